@@ -8,16 +8,16 @@ def run(rep: Report, tier: str, only=None) -> None:
 	thorough = tier == 'thorough'
 	t = 2400 if thorough else 280
 	n = 3 if thorough else 2
-	jobs = [
-		Job('O1.dsn', H, 'dsn_law', {'n': n}, t, 'S', f'three identifiers <= {n} over [a b _ 1]: join/elements/elem_counts/left/right/shift/root/parent vs the list of elements', ('overlapping_names', 'double_underscore')),
-		Job('O2.relativefy', H, 'relativefy_law', {}, t, 'F', 'three identifiers out of 15 (int-selected): DSN.relativefy / EntryPath.relativefy for element-aligned prefixes whose text does not recur later', ('shared_characters',)),
-		Job('O3.module_dsn', H, 'module_dsn_law', {'n': n}, t, 'S', f'module path p.q and local names r, p (identifiers <= {n}): ModuleDSN.full_joined/parsed/expanded/expand_elements/join/identify', ('module_dsn',)),
-		Job('O4.entry_path', H, 'entry_path_law', {'n': n}, t, 'S', f'three tags <= {n}: EntryPath.join/elements/first/last/parent_tag/identify/shift/contains/joined', ('entry_path',)),
-	]
+	firsts = ['a', 'b', '_', 'ab', 'a_', '_1', 'b1', '__'] if not thorough else [x + y for x in 'ab_' for y in ['', 'a', 'b', '_', '1']]
+	jobs = [Job('O2.relativefy', H, 'relativefy_law', {}, t, 'F', 'three identifiers out of 15 (int-selected): DSN.relativefy / EntryPath.relativefy for element-aligned prefixes whose text does not recur later', ('shared_characters',))]
+	for f in firsts:
+		jobs.append(Job('O1.dsn', H, 'dsn_law', {'n': n, 'p': f}, t, 'S', f'first identifier {f!r} (case split), two symbolic identifiers <= {n} over [a b _ 1]: join/elements/elem_counts/left/right/shift/root/parent vs the list of elements', ('overlapping_names',)))
+		jobs.append(Job('O3.module_dsn', H, 'module_dsn_law', {'n': n, 'p': f}, t, 'S', f'module path p.q and local names r, p (p = {f!r} per case, q, r symbolic <= {n}): ModuleDSN.full_joined/parsed/expanded/expand_elements/join/identify', ('module_dsn',)))
+		jobs.append(Job('O4.entry_path', H, 'entry_path_law', {'n': n, 'p': f}, t, 'S', f'three tags (first {f!r} per case, two symbolic <= {n}): EntryPath.join/elements/first/last/parent_tag/identify/shift/contains/joined', ('entry_path',)))
 	if only:
 		jobs = [j for j in jobs if j.obligation in only or j.obligation.split('.')[0] in only]
 	rep.functions = ['DSN.join/elements/elem_counts/left/right/shift/root/parent/relativefy', 'ModuleDSN.full_joined/local_joined/parsed/expanded/expand_elements/identify/join', 'EntryPath.join/identify/elements/first/last/parent_tag/shift/contains/joined/relativefy']
-	rep.bounds = {'identifiers': f'three symbolic identifiers, length <= {n}, over [a b _ 1] (first character not a digit); the solver may make one a prefix / suffix / infix / copy of another'}
+	rep.bounds = {'identifiers': f'first identifier from a case split ({len(firsts)} values), two symbolic identifiers of length <= {n} over [a b _ 1] (first character not a digit); the solver may make one a prefix / suffix / infix / copy of another'}
 	rep.assumptions = ['relativefy: the prefix text does not recur in the remainder (a measured deviation outside every caller\'s domain, DESIGN.md C08)']
 	rep.outside = ['the metamorphic relation transpile(r(P)) == r(transpile(P)) over generated programs (pipeline)', 'PatternParser / CppViewHelper regex helpers (CrossHair\'s regex model did not close on them within budget)', 'keyword / builtin collisions, i18n alias tables']
 	rep.run_jobs(jobs)
